@@ -386,12 +386,19 @@ def work(seed, chunk, nmat, tier):
         x = build_matrix(spec)
         sym = spec["sym"]
         # read back LAPACK: exact integers, descending, non-negative
-        _, s0, _ = sr.linalg.svd(x.copy())
-        order = list(s0.blocks)  # dict order of the sectors, as svd_truncated zips them
         want = {tuple(_dec_charge(c, sym) for c in b["sector"])[1]: b["d"] for b in spec["blocks"]}
-        exact = all(
-            [float(v) for v in np.asarray(s0.blocks[c])] == [float(v) for v in want[c]] for c in order
-        ) and len(order) == len(want)
+        try:
+            _, s0, _ = sr.linalg.svd(x.copy())
+            order = list(s0.blocks)  # dict order of the sectors, as svd_truncated zips them
+            if set(order) != set(want):
+                raise KeyError(f"singular values keyed by {order}, expected the column charges {list(want)}")
+            exact = all(
+                [float(v) for v in np.asarray(s0.blocks[c])] == [float(v) for v in want[c]] for c in order
+            ) and len(order) == len(want)
+        except Exception as e:  # noqa
+            out["viol"].append(dict(what=f"svd of a valid matrix failed or is mis-keyed: {type(e).__name__}: {e}",
+                                    case=dict(matrix=spec), triggers=[], detail=None))
+            continue
         if not exact:
             out["inexact"] += 1
             continue
